@@ -28,7 +28,8 @@ def fromSeries (l : Labelled) : Except Reject Labelled :=
   if l.isEmpty then .error .empty
   else
     let nz := l.filter fun p => p.2 ≠ 0
-    if nz.any fun p => p.2 ≤ 0 then .error .negative else .ok nz
+    if nz.isEmpty then .error .empty
+    else if nz.any fun p => p.2 ≤ 0 then .error .negative else .ok nz
 
 /-- `_level_distrib`: equal shares, or the supplied weights restricted to the affected labels and
     renormalised (`x / sum(x)`); weights must cover the affected set -/
